@@ -37,7 +37,7 @@ CLAIMS = {
         "length-prefixed strings) reproduces exactly the parts (decode(encode x) = x), leave the rest of the buffer untouched, refuse "
         "sections over 65,535 bytes / more than 65,535 tags, ids, authors, kinds / events over u32, return an error for every too-small "
         "buffer, and never panic. Correspondence: constructors and all accessors on the real values vs the model, on part lists around "
-        "every u16 boundary (65,535/65,536 tags, 65,531..70,000-byte strings) and buffer lengths need-8..need+8 and 0..200. Integer members 0..10^30 around every power-of-two width through Event::from_json (the value or an error, never another value); the same parts through from_parts and through a JSON text give byte-identical filters (lists with repeated elements included); event_layout_from_source / utf8_constants_from_source tie writer, readers and the UTF-8 length classes to the source. tags_layout_from_source: Tags::output_size_needed (its additions translated into two folds on every run), the two rejections and the header of Tags::from_parts, and the read offsets of delineate / count / TagsIter / TagsStringIter are the model's, for every list of tags and every input. tags_writer_from_source: the header writes and the two write loops of Tags::from_parts, translated statement by statement into random-access buffer writes with the moving p, are the model's tagsFromParts for every list of tags and every buffer (loop invariant, unbounded). filter_header_from_source / filter_arrays_from_source: the 32-byte header of Filter::from_parts and its copy loops over ids, authors, kinds and the tag section, translated on every run (the loops as random-access writes through the moving p), yield the model's encodeFilterWith for all 32-byte ids and authors, all kinds and every tag section, leaving the rest of the buffer alone.",
+        "every u16 boundary (65,535/65,536 tags, 65,531..70,000-byte strings) and buffer lengths need-8..need+8 and 0..200. Integer members 0..10^30 around every power-of-two width through Event::from_json (the value or an error, never another value); the same parts through from_parts and through a JSON text give byte-identical filters (lists with repeated elements included); event_layout_from_source / utf8_constants_from_source tie writer, readers and the UTF-8 length classes to the source. tags_layout_from_source: Tags::output_size_needed (its additions translated into two folds on every run), the two rejections and the header of Tags::from_parts, and the read offsets of delineate / count / TagsIter / TagsStringIter are the model's, for every list of tags and every input. tags_writer_from_source: the header writes and the two write loops of Tags::from_parts, translated statement by statement into random-access buffer writes with the moving p, are the model's tagsFromParts for every list of tags and every buffer (loop invariant, unbounded). rejections_from_source: the tests Event::from_parts and Filter::from_parts make before their first write (size > u32::MAX, a count > u16::MAX, buffer shorter than the value), read from the source on every run, are exactly when the model's constructors refuse. filter_header_from_source / filter_arrays_from_source: the 32-byte header of Filter::from_parts and its copy loops over ids, authors, kinds and the tag section, translated on every run (the loops as random-access writes through the moving p), yield the model's encodeFilterWith for all 32-byte ids and authors, all kinds and every tag section, leaving the rest of the buffer alone.",
    note=PROOF_NOTE + "The JSON constructors are decided under C01/C07/C03 (parseEvent_wf: a successful parse wrote the encoding of a sized event).",
    technique="Lean 4 proof (layout lemmas: decode-after-encode by induction over tags/strings) + differential correspondence with a direct oracle on accessor values",
    design="6/C19"),
